@@ -469,6 +469,14 @@ func init() {
 					}
 				}
 			}
+			groupedByCall := map[*types.Var]bool{}
+			defer func() {
+				for _, kf := range kinds {
+					if kf.Name() == "Fields" {
+						r.Check(groupedByCall[kf], "kind:Fields/one-item-per-FieldsOf-call", fi.Decl.Pos(), "a field also counts as used when another field listed by the same wire.FieldsOf call is used (the call is the item passed to wire.Build)")
+					}
+				}
+			}()
 			for _, kf := range kinds {
 				k := "kind:" + kf.Name()
 				elem := kf.Type().(*types.Slice).Elem()
@@ -511,6 +519,13 @@ func init() {
 								continue
 							}
 							be, ok := ast.Unparen(is.Cond).(*ast.BinaryExpr)
+							if ok && be.Op == token.LOR {
+								// `u.F == item || <same wire.FieldsOf call>`: the fields listed by one call are one item
+								if sameCallClause(fi, be.Y, u, item, sf) {
+									groupedByCall[kf] = true
+									be, ok = ast.Unparen(be.X).(*ast.BinaryExpr)
+								}
+							}
 							if !ok || be.Op != token.EQL {
 								continue
 							}
@@ -902,4 +917,42 @@ func isAnyCombinator(h *FuncInfo) bool {
 		return ok && id.Name == want
 	}
 	return isConst(is.Body.List[0], "true") && isConst(h.Decl.Body.List[1], "false")
+}
+
+// sameCallClause recognises `u.<sf> != nil && item.call != nil && u.<sf>.call == item.call`
+// (in any order of the nil tests): the two fields come from the same marker call.
+func sameCallClause(fi *FuncInfo, e ast.Expr, u, item *types.Var, sf *types.Var) bool {
+	same := false
+	for _, c := range flatten(e, false, nil) {
+		if c.Neg {
+			return false
+		}
+		be, ok := ast.Unparen(c.Expr).(*ast.BinaryExpr)
+		if !ok {
+			return false
+		}
+		if be.Op == token.NEQ && fi.isNilIdent(be.Y) {
+			continue // nil guards
+		}
+		if be.Op != token.EQL {
+			return false
+		}
+		isCallOf := func(x ast.Expr, root *types.Var, via *types.Var) bool {
+			sel, ok := ast.Unparen(x).(*ast.SelectorExpr)
+			if !ok || sel.Sel.Name != "call" {
+				return false
+			}
+			if via == nil {
+				return fi.varOf(sel.X) == root
+			}
+			in, ok := ast.Unparen(sel.X).(*ast.SelectorExpr)
+			return ok && fi.selField(in) == via && fi.varOf(in.X) == root
+		}
+		if (isCallOf(be.X, u, sf) && isCallOf(be.Y, item, nil)) || (isCallOf(be.Y, u, sf) && isCallOf(be.X, item, nil)) {
+			same = true
+			continue
+		}
+		return false
+	}
+	return same
 }
